@@ -128,7 +128,8 @@ def gen(rng: Any, tier: str, i: int) -> Any:
     subs = []
     for _ in range(rng.randint(1, 8)):
         subs.append([rng.choice([0, 0, rng.randint(0, nmsg - 3)]), rng.choice(["a", "b"]), rng.randrange(nm),
-                     rng.random() < 0.3, rng.random() < 0.2, rng.choice([0, 0, 1, 3, 20])])
+                     rng.random() < 0.3, rng.random() < 0.2, rng.choice([0, 0, 1, 3, 20]),
+                     rng.choice([None, None, None, 0, 1])])  # start_time of the request: part of the stream's identity
     if rng.random() < 0.4 and len(subs) >= 2:
         at = subs[0][0]
         for s in subs[: rng.randint(2, len(subs))]:
@@ -170,8 +171,9 @@ async def _drive(case: dict[str, Any], out: dict[str, Any]) -> None:
     subs = case["subs"]
     for n in range(case["nmsg"]):
         while si < len(subs) and subs[si][0] == n:
-            _, ns, mi, dup, unknown, yields = subs[si]
-            req = ComponentMetricRequest(ns, CID, mets[mi], None)
+            _, ns, mi, dup, unknown, yields = subs[si][:6]
+            st = subs[si][6] if len(subs[si]) > 6 else None
+            req = ComponentMetricRequest(ns, CID, mets[mi], None if st is None else EPOCH - timedelta(hours=1 + st))
             name = req.get_channel_name()
             if name not in streams:
                 rx = reg.get_or_create(Sample[Quantity], name).new_receiver(limit=1000)
@@ -299,6 +301,8 @@ def check(case: dict[str, Any], rec: Any) -> None:
         rec.bucket("two-namespaces-same-metric")
     if len(set(ats)) >= 2:
         rec.bucket("hand-over-with-live-stream")
+    if len({(s[1], s[2]) for s in subs}) < len({(s[1], s[2], s[6] if len(s) > 6 else None) for s in subs}):
+        rec.bucket("requests-that-differ-only-in-start-time")
     out: dict[str, Any] = {"streams": {}}
     mon = LoopMonitor()
     run_virtual(lambda: _drive(case, out), monitor=mon)
